@@ -305,9 +305,20 @@ def g10_identical_arms(ctx: Ctx, scope, rule="G10"):
             if same:
                 tnames = {x.id for x in ast.walk(test) if isinstance(x, ast.Name)} & params
                 for p in tnames:
-                    uses = [x for x in walk_own(f.node) if isinstance(x, ast.Name) and x.id == p and isinstance(x.ctx, ast.Load)]
+                    # loads that see the *parameter's* value: those up to (and inside) the first statement rebinding the name
+                    first = None
+                    for st in walk_ordered(f.node):
+                        if isinstance(st, (ast.Assign, ast.AugAssign, ast.AnnAssign)):
+                            tg = st.targets if isinstance(st, ast.Assign) else [st.target]
+                            names = {y.id for t in tg for y in ast.walk(t) if isinstance(y, ast.Name)}
+                            if p in names:
+                                first = st
+                                break
+                    limit = (first.end_lineno, first.end_col_offset) if first is not None else (10 ** 9, 0)
+                    uses = [x for x in walk_own(f.node) if isinstance(x, ast.Name) and x.id == p and isinstance(x.ctx, ast.Load)
+                            and (x.lineno, x.col_offset) <= limit]
                     intest = [x for x in ast.walk(test) if isinstance(x, ast.Name) and x.id == p]
-                    if len(uses) == len(intest):
+                    if uses and all(any(x is y for y in intest) for x in uses):
                         dead.append(p)
             ctx.ob(rule, f"{f.short}: {ast.unparse(test)[:40]}", not (same and dead),
                    "" if not (same and dead) else
